@@ -43,7 +43,7 @@ static void t_stop(void) { g_sim->tcnt = 0; }
 static void t_start(void) {}
 static uint8_t t_update(void) {
   Sim *s = g_sim;
-  if (s->tcnt > 0) { s->tcnt--; if (s->tcnt == 0) return 1; }
+  if (s->tcnt > 0) { s->tcnt--; if (s->tcnt == 0) return s->tmr_elapsed_code; }
   return 0;
 }
 
@@ -114,10 +114,17 @@ void Sim::init() {
     emcy = (CO_EMCY_TBL *)malloc(sizeof(CO_EMCY_TBL) * CO_EMCY_N);
     for (int i = 0; i < CO_EMCY_N; i++) { emcy[i].Reg = (uint8_t)(i % 8); emcy[i].Code = (uint16_t)(0x1000 + 0x100 * i); }
   }
+  { static const uint8_t EC[4] = {1, 0x80, 0xFF, 2}; tmr_elapsed_code = EC[(nodeid + ntmr) % 4]; }
+  tcnt = 0;
+  reinit();
+}
+// CONodeInit on the memory as it is: called by init() on fresh (poisoned) memory, and by cases in which the application initialises the stack a second time
+// without a power cycle (nothing is cleared in between, the hardware timer of the node's previous life may still be armed)
+void Sim::reinit() {
   CO_NODE_SPEC spec;
   spec.NodeId = nodeid; spec.Baudrate = baud; spec.Dict = dict; spec.DictLen = (uint16_t)(ndict + 1 + dictlen_extra);
   spec.EmcyCode = emcy; spec.TmrMem = tmem; spec.TmrNum = ntmr; spec.TmrFreq = freq; spec.Drv = &Drv; spec.SdoBuf = sdobuf;
-  rxq.clear(); tcnt = 0; lock_depth = 0;
+  rxq.clear(); lock_depth = 0;
   api_begin();
   CONodeInit(node, &spec);
   api_end("CONodeInit");
@@ -129,6 +136,7 @@ void Sim::init_timer_only() {
   tmem = (CO_TMR_MEM *)malloc(sizeof(CO_TMR_MEM) * ntmr); memset(tmem, poison, sizeof(CO_TMR_MEM) * ntmr);
   node->If.Drv = &Drv; node->If.Node = node; node->Error = CO_ERR_NONE;
   tcnt = 0; lock_depth = 0;
+  { static const uint8_t EC[4] = {1, 0x80, 0xFF, 2}; tmr_elapsed_code = EC[ntmr % 4]; }
   api_begin();
   COTmrInit(&node->Tmr, node, tmem, ntmr, freq);
   api_end("COTmrInit");
